@@ -101,6 +101,18 @@ Theorem C01_array_spec en elems index : wf_expr index = true -> env_ok en index 
 Proof. exact (mk_array_spec en elems index). Qed.
 Print Assumptions C01_array_spec.
 
+(* e.rotate_left(n) / rotate_right(n) for ANY integer n: bit i of the result is bit (i -/+ n) mod len of e *)
+Theorem C01_rotate_left_spec en e n i : wf_expr e = true -> env_ok en e -> 0 <= i < ewidth e ->
+  wf_expr (mk_rotate_left e n) = true /\
+  Z.testbit (denote en (mk_rotate_left e n)) i = Z.testbit (denote en e) ((i - n) mod ewidth e).
+Proof. exact (mk_rotate_left_spec en e n i). Qed.
+Print Assumptions C01_rotate_left_spec.
+Theorem C01_rotate_right_spec en e n i : wf_expr e = true -> env_ok en e -> 0 <= i < ewidth e ->
+  wf_expr (mk_rotate_right e n) = true /\
+  Z.testbit (denote en (mk_rotate_right e n)) i = Z.testbit (denote en e) ((i + n) mod ewidth e).
+Proof. exact (mk_rotate_right_spec en e n i). Qed.
+Print Assumptions C01_rotate_right_spec.
+
 Example C01_derived_example :
   let en : env := fun i => match i with O => -8 | _ => 2 end in
   let s := ESig 0 (Sh 4 true) in
